@@ -168,6 +168,11 @@ def run(ctx):
                     ctx.ob("C14.b", GETR, not leaves, f"handler `except {norm(h.type) if h.type else ''}` continues with the next frame",
                            func=GETR, file=f.module.rel, node=h,
                            fail="the handler leaves the per-frame loop (break / return / raise): later frames of the exchange are lost")
+    # ---- C14.c "the decodable ones delivered in the same exchange are still applied": what one response object decoded is not shared with
+    # (and so not wiped or overwritten by) the next frame's object
+    from ..shared import check as shared_check
+    resp = prog.cls("msmart.device.AC.command.Response")
+    shared_check(ctx, "C14.c", [resp] + prog.subclasses(resp) + [prog.cls(AC)], "the response classes and the device")
     ctx.require_min("boundaries", 5)
     ctx.require_min("construct_sites", 1)
     ctx.require_min("raiser_sites", 40)
